@@ -536,13 +536,14 @@ func (g *Gen) applyContract(st *State, a contractApp) Val {
 		}
 		a.sets = a.extra.Sets
 		a.ownNames = true
-		if a.resultNames == nil || len(a.extra.Results) > 0 {
-			a.resultNames = a.extra.Results
-		}
+	}
+	xNames := a.resultNames
+	if a.extra != nil && len(a.extra.Results) > 0 {
+		xNames = a.extra.Results
 	}
 	// ghost updates (evaluated in the pre-state, results visible)
 	if len(a.sets) > 0 {
-		sctx := &specCtx{g: g, st: pre, old: pre, binds: a.binds, results: results, resultNames: a.resultNames, calleeOnly: !a.ownNames, oldIsPre: true}
+		sctx := &specCtx{g: g, st: pre, old: pre, binds: a.binds, results: results, resultNames: xNames, calleeOnly: !a.ownNames, oldIsPre: true}
 		newVals := map[string]Val{}
 		for _, s := range a.sets {
 			newVals[s.Name] = g.evalSpec(sctx, s.E)
@@ -555,12 +556,12 @@ func (g *Gen) applyContract(st *State, a contractApp) Val {
 			g.noteGhostWrite(n)
 		}
 	}
-	ectx := &specCtx{g: g, st: st, old: pre, binds: a.binds, results: results, resultNames: a.resultNames, calleeOnly: !a.ownNames, oldIsPre: true}
+	ectx := &specCtx{g: g, st: st, old: pre, binds: a.binds, results: results, resultNames: a.resultNames, calleeOnly: !a.ownNames || a.extra != nil, oldIsPre: true}
 	for _, c := range a.ensures {
 		g.assume(st, g.evalAssume(ectx, c.E))
 	}
 	if a.extra != nil {
-		xe := &specCtx{g: g, st: st, old: pre, binds: a.binds, results: results, resultNames: a.resultNames, oldIsPre: true}
+		xe := &specCtx{g: g, st: st, old: pre, binds: a.binds, results: results, resultNames: xNames, oldIsPre: true}
 		for _, c := range a.extra.Ensures {
 			g.assume(st, g.evalAssume(xe, c.E))
 		}
